@@ -86,6 +86,31 @@ CONFIGS = {
  "UQ": ("w.undelQueue", "qframe",
         {"payBucket", "queueUndelegation", "undelegate", "msgUndelegate", "completeUnbondings", "slashUndelegations", "slashValidator",
          "beforeValidatorSlashed", "endBlocker"}),
+ "G": ("(w.bank, w.assets, w.undelQueue, w.oracle, w.staking.bondDenom)", "gframe",
+       {"setBalance", "sendCoin", "sendCoins", "mintCoin", "burnCoin", "withdrawRewards", "setAsset", "addAssetsToRewardPool",
+        "claimValidatorRewards", "claimDelegationRewards", "settleBeforeDeposit", "resetAssetAndValidators", "clearDustDelegation",
+        "queueUndelegation", "delegate", "undelegate", "redelegate", "payEntry", "payBucket", "completeUnbondings",
+        "slashRedelegations", "slashUndelegations", "slashValidator", "beforeValidatorSlashed", "initializeAllianceAssets",
+        "settleAllValidators", "updateAllianceAsset", "deductAssetsWithTakeRate", "deductAssetsHook", "rewardWeightChangeHook",
+        "distrHookWithdraw", "stakingDelegate", "stakingUnbond", "rebalanceBondTokenWeights", "rebalanceHook", "endBlocker",
+        "msgDelegate", "msgUndelegate", "msgRedelegate", "msgClaim", "msgCreateAlliance", "msgUpdateAlliance", "msgDeleteAlliance"}),
+ "Good": ("(w.assets, w.undelQueue, w.oracle, w.staking.bondDenom)", "oframe",
+       {"setAsset", "resetAssetAndValidators", "clearDustDelegation", "initializeAllianceAssets",
+        "deductAssetsWithTakeRate", "deductAssetsHook", "msgCreateAlliance", "withdrawRewards", "addAssetsToRewardPool", "stakingDelegate", "stakingUnbond",
+        "claimValidatorRewards", "claimDelegationRewards", "settleBeforeDeposit",
+        "queueUndelegation", "delegate", "undelegate", "redelegate", "payBucket", "completeUnbondings",
+        "slashRedelegations", "slashUndelegations", "slashValidator", "beforeValidatorSlashed",
+        "settleAllValidators", "updateAllianceAsset", "rewardWeightChangeHook",
+        "distrHookWithdraw", "rebalanceBondTokenWeights", "rebalanceHook", "endBlocker",
+        "msgDelegate", "msgUndelegate", "msgRedelegate", "msgClaim", "msgUpdateAlliance", "msgDeleteAlliance"}),
+ "OB": ("(w.oracle, w.staking.bondDenom)", "obframe",
+       {"withdrawRewards", "stakingDelegate", "stakingUnbond",
+        "claimValidatorRewards", "claimDelegationRewards", "settleBeforeDeposit",
+        "delegate", "undelegate", "redelegate",
+        "slashRedelegations", "slashValidator", "beforeValidatorSlashed",
+        "settleAllValidators", "updateAllianceAsset", "rewardWeightChangeHook",
+        "distrHookWithdraw", "rebalanceBondTokenWeights", "rebalanceHook", "endBlocker",
+        "msgDelegate", "msgUndelegate", "msgRedelegate", "msgClaim", "msgUpdateAlliance", "msgDeleteAlliance"}),
  "Staking": ("(w.staking, w.time, w.height)", "sframe",
              {"setSVal", "stakingDelegate", "stakingUnbond", "rebalanceBondTokenWeights", "rebalanceHook", "endBlocker"}),
  "Redel": ("(w.redels, w.redelQueue, w.redelIndex)", "rframe",
@@ -153,7 +178,7 @@ theorem asTx {m : M α} (hm : Fr m) : Fr (Alliance.asTx m) := by
   rw [hmw] at h1
   cases r with
   | ok a => exact h1
-  | error e => rfl
+  | error e => first | rfl | (simp only [π, Prod.mk.injEq] at h1 ⊢; simp [h1])
 
 /-- π is an invariant-carrying projection: any state predicate that only reads π is preserved by a framed computation -/
 theorem toPresR {m : M α} (h : Fr m) (J : _ → Prop) : PresR (fun w => J (π w)) m Any := by
